@@ -5,13 +5,10 @@ import os
 V = os.path.dirname(os.path.dirname(os.path.abspath(__file__)))
 ALL = ["C%02d" % i for i in range(1, 21)]
 
-CHECKS = {
-    "C19": {
-        "text": "All statements of C19 are Coq theorems over exact rationals about tableaux regenerated from utils/rk.py on every run: Butcher order conditions for every rooted tree up to each row's advertised order (trees quantified as an inductive type, enumeration proved complete), row sums, explicitness, constant-coefficient expansion = 1/k!, Taylor coefficients = 1/k! for all k. The property's domain (ten methods) is finite, so this is a complete proof of the property about the source literals; floats are tied by a 2-ulp correspondence.",
-        "note": "Trusted: Coq kernel incl. vm_compute; translator tx/rk.py (ast -> rationals, fail-closed); correspondence of float tableau / ti / Taylor values; binary64 rounding modelled not verified. No axioms (Print Assumptions: closed).",
-        "technique": "Coq proof over generated rational tableaux (translator) + float correspondence",
-        "design": "§6 C19"},
-}
+CHECKS = {}
+for _f in sorted(os.listdir(os.path.join(V, "harness", "meta"))):
+    if _f.endswith(".json"):
+        CHECKS[_f[:-5]] = json.load(open(os.path.join(V, "harness", "meta", _f)))
 
 NA_REASON = "check not built yet in this round; see DESIGN.md §6 for the planned model/theorems (will be claimed once its check passes on the unchanged tree)"
 
